@@ -57,6 +57,23 @@ type TLSConfig struct {
 	tlsConfig   *tls.Config
 	mu          sync.RWMutex
 	currentCert atomic.Pointer[tls.Certificate] // atomically updated for concurrent reads
+
+	// certShared is the certificate slot shared by a TLSConfig and all of its
+	// clones. The options a server stores, the ones it hands out through
+	// GetExportOptions and the one its listener was built from are all clones
+	// of each other; ReloadCertificates on any of them must reach the listener.
+	certShared *atomic.Pointer[tls.Certificate]
+	sharedOnce sync.Once
+}
+
+// sharedCert returns the certificate slot shared with all clones.
+func (tc *TLSConfig) sharedCert() *atomic.Pointer[tls.Certificate] {
+	tc.sharedOnce.Do(func() {
+		if tc.certShared == nil {
+			tc.certShared = new(atomic.Pointer[tls.Certificate])
+		}
+	})
+	return tc.certShared
 }
 
 // DefaultTLSConfig returns a TLS configuration with secure defaults
@@ -155,11 +172,13 @@ func (tc *TLSConfig) BuildConfig() (*tls.Config, error) {
 
 	// Store cert atomically for concurrent-safe access
 	tc.currentCert.Store(&cert)
+	shared := tc.sharedCert()
+	shared.Store(&cert)
 
 	// Create base TLS config using GetCertificate callback for hot-reload support
 	config := &tls.Config{
 		GetCertificate: func(*tls.ClientHelloInfo) (*tls.Certificate, error) {
-			return tc.currentCert.Load(), nil
+			return shared.Load(), nil
 		},
 		MinVersion:               tc.MinVersion,
 		MaxVersion:               tc.MaxVersion,
@@ -226,6 +245,7 @@ func (tc *TLSConfig) ReloadCertificates() error {
 	// Atomically update the certificate - the GetCertificate callback
 	// will pick up the new cert on the next TLS handshake
 	tc.currentCert.Store(&cert)
+	tc.sharedCert().Store(&cert)
 
 	return nil
 }
@@ -316,6 +336,7 @@ func (tc *TLSConfig) Clone() *TLSConfig {
 		MaxVersion:               tc.MaxVersion,
 		PreferServerCipherSuites: tc.PreferServerCipherSuites,
 		InsecureSkipVerify:       tc.InsecureSkipVerify,
+		certShared:               tc.sharedCert(),
 	}
 
 	// Copy cipher suites slice
